@@ -339,6 +339,71 @@ fn main() {
             Ok(format!("{:?}", after.keys().filter(|k| !before.contains_key(*k)).collect::<Vec<_>>()))
         });
     }
+    // ---- C04 / C06 / C11 / C12 / C05 / C02: the build-script path through the generation cache equals a fresh run
+    {
+        const LIB_EDIT: &str = "use serde::{Serialize, Deserialize};\nuse tauri::Emitter;\nuse tauri::ipc::Channel;\n#[derive(Serialize, Deserialize, Clone)]\n#[serde(rename_all = \"camelCase\")]\npub struct Profile { #[validate(length(min = 1, max = 20))] pub user_name: String, pub age: Option<u32>, #[serde(rename = \"mail\")] pub email: String }\n#[derive(Serialize, Deserialize, Clone)]\npub enum Level { Low, High }\n#[tauri::command]\npub fn save(app: tauri::AppHandle, user_name: String, retry_count: u32, note: Option<String>, on_progress: Channel<u32>, profile: Profile) -> Result<Level, String> { app.emit(\"saved\", retry_count).ok(); todo!() }\n";
+        let edits: Vec<(&str, &str, &str, &str)> = vec![
+            ("incremental_run_sees_parameter_edits", "rename a parameter", "user_name: String, retry", "display_name: String, retry"),
+            ("incremental_run_sees_parameter_edits", "rename the channel parameter", "on_progress: Channel", "on_tick: Channel"),
+            ("incremental_run_sees_parameter_edits", "rename_all of the command", "#[tauri::command]\npub fn save", "#[tauri::command(rename_all = \"snake_case\")]\npub fn save"),
+            ("incremental_run_sees_serde_edits", "rename_all of the struct", "rename_all = \"camelCase\"", "rename_all = \"SCREAMING_SNAKE_CASE\""),
+            ("incremental_run_sees_serde_edits", "rename of a field", "rename = \"mail\"", "rename = \"e_mail\""),
+            ("incremental_run_sees_serde_edits", "new variant", "Low, High", "Low, Medium, High"),
+            ("incremental_run_sees_validator_edits", "bound", "max = 20", "max = 30"),
+            ("incremental_run_sees_validator_edits", "validator added", "pub email:", "#[validate(email)] pub email:"),
+            ("incremental_run_sees_event_edits", "event name", "\"saved\"", "\"stored\""),
+            ("incremental_run_sees_event_edits", "payload", "emit(\"saved\", retry_count)", "emit(\"saved\", user_name.clone())"),
+            ("incremental_run_sees_type_edits", "return type", "-> Result<Level, String>", "-> Result<Vec<Level>, String>"),
+            ("incremental_run_sees_type_edits", "channel message type", "Channel<u32>", "Channel<Level>"),
+            ("lost_generated_file_is_written_again", "delete types.ts", "", ""),
+            ("lost_generated_file_is_written_again", "delete events.ts", "", ""),
+        ];
+        let strip = |m: BTreeMap<String, String>| -> BTreeMap<String, String> { m.into_iter().filter(|(k, _)| k != ".typecache").map(|(k, v)| (k, v.lines().filter(|l| !l.contains("Generated at:")).collect::<Vec<_>>().join("\n"))).collect() };
+        let run_in = |proj: &std::path::Path| -> Result<(), String> {
+            let cwd = std::env::current_dir().map_err(|e| e.to_string())?;
+            std::env::set_current_dir(proj).map_err(|e| e.to_string())?;
+            let r = tauri_typegen::BuildSystem::new(false, false).run_generation().map_err(|e| format!("run_generation returned Err: {}", e));
+            let _ = std::env::set_current_dir(&cwd);
+            r
+        };
+        let setup = |proj: &std::path::Path, lib: &str, mode: &str| -> Result<(), String> {
+            let _ = fs::remove_dir_all(proj);
+            fs::create_dir_all(proj.join("src-tauri/src")).map_err(|e| e.to_string())?;
+            fs::write(proj.join("src-tauri/src/lib.rs"), lib).map_err(|e| e.to_string())?;
+            fs::write(proj.join("tauri.conf.json"), format!("{{\n  \"productName\": \"demo\",\n  \"plugins\": {{ \"typegen\": {{ \"projectPath\": {:?}, \"outputPath\": {:?}, \"validationLibrary\": {:?} }} }}\n}}\n",
+                proj.join("src-tauri").to_string_lossy(), proj.join("src/generated").to_string_lossy(), mode)).map_err(|e| e.to_string())
+        };
+        for mode in ["none", "zod"] {
+            for (i, (check, what, from, to)) in edits.iter().enumerate() {
+                rep.case(check, &format!("build-script path mode={} edit: {} (`{}` -> `{}`)", mode, what, from, to), &|| {
+                    if !LIB_EDIT.contains(from) { return Err(format!("UNPARSED: the corpus source does not contain `{}`", from)); }
+                    let proj = root.join(format!("binc_{}_{}", mode, i));
+                    let fresh = root.join(format!("binc_{}_{}_fresh", mode, i));
+                    let edited = if from.is_empty() { LIB_EDIT.to_string() } else { LIB_EDIT.replacen(from, to, 1) };
+                    setup(&proj, LIB_EDIT, mode)?;
+                    run_in(&proj)?;
+                    if from.is_empty() {
+                        let f = what.trim_start_matches("delete ");
+                        fs::remove_file(proj.join("src/generated").join(f)).map_err(|e| format!("UNPARSED: the first run wrote no {}: {}", f, e))?;
+                    } else {
+                        fs::write(proj.join("src-tauri/src/lib.rs"), &edited).map_err(|e| e.to_string())?;
+                    }
+                    run_in(&proj)?;
+                    setup(&fresh, &edited, mode)?;
+                    run_in(&fresh)?;
+                    let second = strip(snapshot(&proj.join("src/generated"))); let want = strip(snapshot(&fresh.join("src/generated")));
+                    for (f, text) in &want {
+                        match second.get(f) {
+                            None => return Err(format!("{} is missing after a build-script run that reported success", f)),
+                            Some(t) if t != text => return Err(format!("after the edit, {} of a build-script run through the cache differs from a fresh run: the bindings on disk still describe the old source", f)),
+                            _ => {}
+                        }
+                    }
+                    Ok("ok".into())
+                });
+            }
+        }
+    }
     // ---- C16: the deletion predicate of the build-script cleanup, on names near the reserved ones
     {
         let stems = ["types", "commands", "events", "index", "schemas", "models", "bindings", "dependency-graph", "foo", "", "generated", "mytypes"];
